@@ -830,6 +830,15 @@ F_C13_step(cfg, pre, post) ==
              LET s == post.steps[a]
              IN IsLive(post, s.i) /\ CuOf(post, s.i).loc = s.n /\ CuOf(post, s.i).arr = post.now
                 => CuOf(post, s.i).rdate = post.now + s.y)
+       \cup Chk("C13.patience-fixed-at-arrival", \A j \in DOMAIN pre.cu :
+             \* the reneging date set at arrival does not move while the customer waits there (whatever its class becomes)
+             LET p == pre.cu[j]
+             IN p.loc \in 1..cfg.N /\ p.srv = 0 /\ p.ss = NONE /\ p.rdate # NONE /\ p.rdate < INF
+                /\ IsLive(post, p.id) /\ CuOf(post, p.id).loc = p.loc /\ CuOf(post, p.id).arr = p.arr
+                /\ CuOf(post, p.id).ss = NONE
+                /\ ~(\E b \in DOMAIN post.steps : post.steps[b].i = p.id
+                                                    /\ post.steps[b].k \in {"start", "preempt", "interrupt", "release", "accept"})
+                => CuOf(post, p.id).rdate = p.rdate)
        \cup Chk("C13.accept-draws-patience", \A a \in IdxOf(post, "accept") :
              LET s == post.steps[a]
                  has == s.n \in 1..cfg.N /\ IsLive(post, s.i) /\ CuOf(post, s.i).ocls \in 1..cfg.K
